@@ -290,6 +290,8 @@ pub enum Step
     Direct(WOp),
     /// One `App::update()`.
     Update,
+    /// `app.setup_auto_despawn()` called again ("can be added to multiple plugins without conflict"): must change nothing.
+    AppSetup,
 }
 
 /// A frame system (C08c): an exclusive system in an `App` schedule that runs a batch per frame.
